@@ -666,6 +666,22 @@ static unsigned parse_hex4(const unsigned char * const input)
     return h;
 }
 
+/* check that the next 4 bytes are hexadecimal digits */
+static cJSON_bool is_hex4(const unsigned char * const input)
+{
+    size_t i = 0;
+
+    for (i = 0; i < 4; i++)
+    {
+        if (!(((input[i] >= '0') && (input[i] <= '9')) || ((input[i] >= 'A') && (input[i] <= 'F')) || ((input[i] >= 'a') && (input[i] <= 'f'))))
+        {
+            return false;
+        }
+    }
+
+    return true;
+}
+
 /* converts a UTF-16 literal to UTF-8
  * A literal can be one or two sequences of the form \uXXXX */
 static unsigned char utf16_literal_to_utf8(const unsigned char * const input_pointer, const unsigned char * const input_end, unsigned char **output_pointer)
@@ -681,6 +697,12 @@ static unsigned char utf16_literal_to_utf8(const unsigned char * const input_poi
     if ((input_end - first_sequence) < 6)
     {
         /* input ends unexpectedly */
+        goto fail;
+    }
+
+    /* parse_hex4 cannot report an error, so check the digits first */
+    if (!is_hex4(first_sequence + 2))
+    {
         goto fail;
     }
 
